@@ -2,7 +2,7 @@
 from common import *
 
 ASSUMPTIONS = [
-  "L2 works on tokens (as C09): the character level — in particular the spelling of the new sheet name inside the stored text — is tied by the correspondence (the real lexer's tokens of the implementation's new stored text must equal the model's printed tokens) and, for the name itself, by C22's sheet-name codec theorem instantiated in C17_rename_name_survives",
+  "L2 works on tokens (as C09): the character level — in particular the spelling of the new sheet name inside the stored text — is tied by the correspondence (the real English lexer's tokens of the stored text before and after must be the model's input and printed tokens) and, for the name itself, by C22's sheet-name codec theorem instantiated in C17_rename_name_survives",
   "function, boolean and error names and str::to_uppercase/to_lowercase are parameters of the models (record Printer.names), instantiated by the runner with the tables the harness dumps from the built code on every run; case mapping is ASCII/Latin-1 (sheet names in the pools differ by more than case outside Latin-1)",
   "the parser environment after the operation takes its defined-name texts from the implementation (they are carried inside DefinedNameKind nodes); the defined-name rewrite itself is checked by the oracle only",
   "boolean literals are not generated in stored formulas of non-English workbooks (their tokens differ per lexer language)",
